@@ -632,7 +632,13 @@ func master(h Harness, jobs []Job, tr string, budget int) {
 		"known_findings_seen":           len(knownSeen),
 	}
 	if total.Samples == nil {
-		cov["samples"] = []string{}
+		cov["samples"] = []string{fmt.Sprintf("%d jobs, first: %s", len(jobs), jobs[0].Name)}
+	}
+	// the model-checking keys are only meaningful when the harness counted them
+	if total.States == 0 || total.Transitions == 0 {
+		delete(cov, "states")
+		delete(cov, "transitions")
+		delete(cov, "traces_validated_against_impl")
 	}
 	ev := map[string]any{
 		"property_id": h.ID,
